@@ -351,3 +351,115 @@ def replay_main(pid, path):
         return 0
     finally:
         common.rmtree(work)
+
+
+# ---------------------------------------------------------------------------
+# every reachable pre-sort state of a small model, handed to the real sort_trajstate
+_SORT = {}
+
+
+class _SortLoop(Exception):
+    pass
+
+
+def _sort_job(chunk):
+    import types
+    from harness.repex_util import new_state, with_ghost, locks_vec
+    n = _SORT["n"]
+    out = []
+    for key in chunk:
+        slot, lock, rows = key
+        st = new_state(n, workers=max(1, min(n - 1, 2)))
+        st.state = with_ghost([list(r) for r in rows])
+        st._locks = locks_vec(n, lock)
+        st._trajs = [types.SimpleNamespace(path_number=p) for p in slot] + [""]
+        st.toinitiate = -1
+        count = {"n": 0}
+        real_swap = st.swap
+
+        def swap(a, b):
+            count["n"] += 1
+            if count["n"] > 4 * n * n:
+                raise _SortLoop()
+            return real_swap(a, b)
+        st.swap = swap
+        fails = []
+        try:
+            st.sort_trajstate()
+        except _SortLoop:
+            fails.append(("sort:no-termination", "sort_trajstate keeps swapping (more than 4 N^2 swaps)"))
+        except Exception as exc:  # noqa: BLE001
+            fails.append((f"sort:raise:{type(exc).__name__}", f"sort_trajstate raised {type(exc).__name__}: {exc}"))
+        if not fails:
+            post = [t.path_number for t in st._trajs[:n]]
+            w = st.state[:n, :n]
+            wt_of = {p: list(r) for p, r in zip(slot, rows)}
+            if sorted(post) != sorted(slot):
+                fails.append(("sort:C_Live", f"live paths changed from {sorted(slot)} to {sorted(post)}"))
+            elif any(post[e] != slot[e] for e in lock):
+                fails.append(("sort:C_BusyUntouched", f"the path of a busy ensemble was moved: {slot} -> {post}, busy {sorted(lock)}"))
+            elif any([float(x) for x in w[e]] != [float(x) for x in wt_of[post[e]]] for e in range(n)):
+                fails.append(("sort:C_WeightsStable", "weight rows no longer travel with their paths"))
+            elif any(w[e][e] == 0 for e in range(n) if e not in lock):
+                fails.append(("sort:C_Sorted", f"an idle path sits in an ensemble where its weight is zero: {post}"))
+            elif [int(x) for x in st._locks[:n]] != [1 if e in lock else 0 for e in range(n)]:
+                fails.append(("sort:C_Unlock", "sort_trajstate changed the locks"))
+        for sig, msg in fails:
+            out.append((sig, msg, {"slot": list(slot), "lock": sorted(lock), "rows": [list(r) for r in rows]}))
+    return len(chunk), out
+
+
+def sort_states(sc, name, consts, timeout=1500):
+    """All pre-sort states reachable in a small model of Infretis.tla, each run through the real sort_trajstate."""
+    chk = sc.chk
+    text, full = cfg_text(consts, invariants=["NotStuck"], properties=[])
+    cfg = os.path.join(sc.work, f"SORT_{name}.cfg")
+    with open(cfg, "w") as fh:
+        fh.write(text)
+    dot = os.path.join(sc.work, f"sort_{name}.dot")
+    try:
+        res = tlc.run_tlc("MC_Infretis", cfg, dump=dot, timeout=timeout, allow_violation=True, coverage=False)
+    except tlc.TLCError as exc:
+        chk.machinery(str(exc)[:1000])
+        return
+    chk.add_tlc(res, full)
+    keys = set()
+    import re
+    pat = re.compile(r"presort = (\[.*?\])\n/\\", re.S)
+    raw, _i, _e = tlc.read_dot(dot, parse=False)
+    os.remove(dot)
+    seen_txt = set()
+    for txt in raw.values():
+        m = re.search(r"/\\ presort = (.*?)(?=\n/\\ |\Z)", txt, re.S)
+        if not m or m.group(1).strip() == "<<>>":
+            continue
+        t = m.group(1).strip()
+        if t in seen_txt:
+            continue
+        seen_txt.add(t)
+        v = tlc.parse_value(t)
+        n = full["N"]
+        slot = tuple(v["slot"][e] for e in range(n)) if isinstance(v["slot"], dict) else tuple(v["slot"])
+        rows_v = v["rows"]
+        rows = tuple(tuple((rows_v[e][j] if isinstance(rows_v[e], dict) else rows_v[e][j]) for j in range(n)) for e in range(n)) \
+            if isinstance(rows_v, dict) else tuple(tuple(r[j] if isinstance(r, dict) else r[j] for j in range(n)) for r in rows_v)
+        keys.add((slot, frozenset(v["lock"]), rows))
+    _SORT["n"] = full["N"]
+    keys = sorted(keys, key=lambda k: (k[0], sorted(k[1]), k[2]))
+    results = common.pmap(_sort_job, common.chunks(keys, 48))
+    total = 0
+    for n_done, fails in results:
+        total += n_done
+        for sig, msg, case in fails:
+            if sig.split(":")[1] in ("C_Live", "C_BusyUntouched", "C_WeightsStable", "C_Unlock") and sc.pid not in ("C03", "C05", "C04"):
+                continue
+            chk.violation(sig, msg, {"property": sc.pid, "binding": "B", "spec": "Infretis", "constants": full, "presort": case,
+                                     "clause": sig, "kind": "sort-state"})
+    chk.evaluated(total)
+    chk.traces(total)
+    for k in keys[:200000]:
+        chk.nontrivial(("presort", str(k)))
+    if keys:
+        k = keys[len(keys) // 2]
+        chk.sample({"kind": "reachable pre-sort state run through the real sort_trajstate", "slot": list(k[0]), "busy": sorted(k[1]), "rows": [list(r) for r in k[2]]}, limit=8)
+    print(f"  pre-sort states {name}: {res['distinct']} model states, {total} distinct pre-sort states through the real sort_trajstate", flush=True)
